@@ -289,6 +289,22 @@ int main(int argc, char **argv) {
     n += snprintf(buf + n, sizeof buf - n, "}\n");
     write(1, buf, n);
     _exit(0);
+  } else if (!strcmp(c, "threads")) {
+    // threads N MS: N extra threads, all sleeping MS milliseconds
+    int nt = atoi(argv[2]); long ms = atol(argv[3]); pthread_t th;
+    for (int i = 0; i < nt; i++) pthread_create(&th, NULL, (void *(*)(void *))sleep, (void *)(ms / 1000 + 1));
+    struct timespec ts = {ms / 1000, (ms % 1000) * 1000000L}; nanosleep(&ts, NULL);
+    _exit(0);
+  } else if (!strcmp(c, "burn")) {
+    // waits for a line on stdin, then burns MS milliseconds of CPU and touches MB megabytes
+    char go[8]; if (read(0, go, sizeof go) <= 0) _exit(3);
+    long ms = atol(argv[2]), mb = atol(argv[3]);
+    char *m = malloc((size_t)mb << 20); if (m) for (long i = 0; i < (mb << 20); i += 4096) m[i] = 1;
+    struct timespec t0, t1; clock_gettime(CLOCK_PROCESS_CPUTIME_ID, &t0);
+    volatile unsigned long x = 0;
+    for (;;) { for (int i = 0; i < 100000; i++) x += i; clock_gettime(CLOCK_PROCESS_CPUTIME_ID, &t1);
+      if ((t1.tv_sec - t0.tv_sec) * 1000 + (t1.tv_nsec - t0.tv_nsec) / 1000000 >= ms) break; }
+    _exit(0);
   } else if (!strcmp(c, "fsprobe")) {
     // what a program sees of its root: listing of /, reachability of the old root, and per path: statfs flags and a write attempt
     static char buf[1 << 16]; int n = 0; struct stat s1, s2;
